@@ -579,8 +579,8 @@ theorem packFS_repack_gc {h h' : History} {T T' : Tid} (hs : Sorted h) (hb : Bac
         simp [GC.isReachable, hl2]
   apply copyPre_self
   intro t' ht'
-  obtain ⟨hpk, hne, hbk, t, _, etid, hrecs⟩ := copyPre_shape ht'
-  refine ⟨hpk, hne, ?_⟩
+  obtain ⟨hpk, hne, hnd, hbk, t, _, etid, hrecs⟩ := copyPre_shape ht'
+  refine ⟨hpk, hne, hnd, ?_⟩
   intro r' hr'
   refine ⟨hbk r' hr', ?_⟩
   obtain ⟨r, _, er, hk⟩ := hrecs r' hr'
